@@ -20,6 +20,8 @@ type Profile struct {
 	PForged                               int
 	PrefixSharePct                        int // percent of runs whose leaf hashes share a 27-byte prefix
 	LargePermille                         int // per-mille of blocks with 1025..4124 additions (verifier-only profiles)
+	NodeHashPct                           int // percent of runs in which an added leaf may carry the hash of an internal node
+	WidePct                               int // percent of runs whose first block adds 300..700 leaves (call arguments of more than 128 elements)
 	HugePermille                          int // per-mille of runs with one block of 65536+ additions (16-bit counters)
 	NetFaults                             bool
 	QueryModes                            []string
@@ -52,7 +54,7 @@ func init() {
 			{Kind: "mappartial", TotalRows: -1, DetMaps: r.Bool(), Big: bigOffset(r)}}
 		return ns
 	}
-	reg(&Profile{Name: "c01", PForged: 10, Property: "C01", Oracles: []string{"roots"},
+	reg(&Profile{Name: "c01", NodeHashPct: 4, PForged: 10, Property: "C01", Oracles: []string{"roots"},
 		Nodes: func(r *Rng) []NodeCfg {
 			ns := allForests(r)
 			ns = append(ns, NodeCfg{Kind: "stump", Big: bigOffset(r)})
@@ -69,7 +71,7 @@ func init() {
 	reg(&Profile{Name: "c02", PrefixSharePct: 6, PForged: 15, Property: "C02", Oracles: []string{"roots", "prove"},
 		Nodes:     func(r *Rng) []NodeCfg { return allForests(r) },
 		MaxBlocks: 30, MaxAdds: 48, PReorg: 8, PSnapCrash: 4, PCacheOps: 6, NetFaults: true})
-	reg(&Profile{Name: "c05", PForged: 15, Property: "C05", Oracles: []string{"roots"},
+	reg(&Profile{Name: "c05", NodeHashPct: 6, PForged: 15, Property: "C05", Oracles: []string{"roots"},
 		Nodes: func(r *Rng) []NodeCfg {
 			return []NodeCfg{{Kind: "stump", Relay: "reenc", NoUndo: true}, {Kind: "pollard", Relay: "reenc", NoUndo: true},
 				{Kind: "mapfull", TotalRows: -1, Relay: "reenc", NoUndo: true, DetMaps: r.Bool()},
@@ -92,7 +94,7 @@ func init() {
 	}
 	reg(&Profile{Name: "c07", LargePermille: 4, PrefixSharePct: 15, PForged: 10, HugePermille: 2, Property: "C07", Oracles: []string{"roots", "light"},
 		Nodes: lightNodes, MaxBlocks: 40, MaxAdds: 40, PReorg: 10, PSnapCrash: 3, NetFaults: true})
-	reg(&Profile{Name: "c08", LargePermille: 4, PrefixSharePct: 15, PForged: 10, HugePermille: 1, Property: "C08", Oracles: []string{"roots", "light"},
+	reg(&Profile{Name: "c08", NodeHashPct: 3, LargePermille: 4, PrefixSharePct: 15, PForged: 10, HugePermille: 1, Property: "C08", Oracles: []string{"roots", "light"},
 		Nodes: lightNodes, MaxBlocks: 40, MaxAdds: 40, PReorg: 35, PSnapCrash: 3, NetFaults: true})
 	reg(&Profile{Name: "c11", LargePermille: 8, PrefixSharePct: 15, PForged: 10, HugePermille: 2, Property: "C11", Oracles: []string{"roots", "updatedata"},
 		Nodes: func(r *Rng) []NodeCfg {
@@ -121,7 +123,7 @@ func init() {
 				mapNode("mapfull", r), {Kind: "mappartial", TotalRows: -1, DetMaps: true}, mapNode("mappartial", r), {Kind: "mappartial", TotalRows: -1, DetMaps: true, Big: bigOffset(r)}}
 		},
 		MaxBlocks: 25, MaxAdds: 32, PReorg: 12, PSnapCrash: 35, PCacheOps: 8, NetFaults: true})
-	reg(&Profile{Name: "c14", PForged: 15, Property: "C14", Oracles: []string{"roots", "c14proto"},
+	reg(&Profile{Name: "c14", NodeHashPct: 3, WidePct: 2, PForged: 15, Property: "C14", Oracles: []string{"roots", "c14proto"},
 		Nodes: func(r *Rng) []NodeCfg {
 			return []NodeCfg{{Kind: "mappartial", TotalRows: -1, DetMaps: r.Bool()}, {Kind: "mappartial", TotalRows: 0}, mapNode("mappartial", r), {Kind: "stump"},
 				{Kind: "mappartial", TotalRows: -1, Big: bigOffset(r)}, {Kind: "stump", Big: bigOffset(r)},
@@ -129,7 +131,7 @@ func init() {
 		},
 		MaxBlocks: 25, MaxAdds: 32, PReorg: 8, PCacheOps: 25, PQuery: 60, NetFaults: true,
 		QueryModes: []string{"addproof", "subset", "missing", "pmissing"}})
-	reg(&Profile{Name: "c17", PForged: 15, Property: "C17", Oracles: []string{"roots", "prove", "lookup", "light", "updatedata", "partial", "aliasing", "c14proto"},
+	reg(&Profile{Name: "c17", WidePct: 3, PForged: 15, Property: "C17", Oracles: []string{"roots", "prove", "lookup", "light", "updatedata", "partial", "aliasing", "c14proto"},
 		Nodes: func(r *Rng) []NodeCfg {
 			return []NodeCfg{{Kind: "stump"}, {Kind: "light"}, {Kind: "pollard"}, {Kind: "mapfull", TotalRows: -1}, mapNode("mapfull", r),
 				{Kind: "mappartial", TotalRows: -1}, mapNode("mappartial", r), {Kind: "stump", Relay: "reenc", NoUndo: true},
@@ -225,6 +227,13 @@ func Generate(p *Profile, seed uint64) *Scenario {
 	if p.PrefixSharePct > 0 && sw.Pct(p.PrefixSharePct) {
 		sc.PrefixShare = true
 	}
+	if p.NodeHashPct > 0 && sw.Pct(p.NodeHashPct) || os.Getenv("VERIF_EXP_NHL") != "" {
+		// an added leaf may carry the hash of an internal node (only in profiles whose
+		// oracles the library satisfies with such leaves: roots, block application,
+		// the proof helpers, cached-proof undo; DESIGN 7.1).  VERIF_EXP_NHL forces it
+		// for experiments in other profiles.
+		sc.NodeHashLeaf = true
+	}
 	if p.PForged > 0 && sw.Pct(60) {
 		sc.Forged = p.PForged
 	}
@@ -234,6 +243,10 @@ func Generate(p *Profile, seed uint64) *Scenario {
 		dropP, dupP, slowP = sw.Intn(12), sw.Intn(10), sw.Intn(15)
 	}
 	delBias := sw.Intn(4) // 0 mixed, 1 heavy deletes, 2 light deletes, 3 tree-oriented
+	wide := p.WidePct > 0 && sw.Pct(p.WidePct)
+	if wide && maxBlocks > 8 {
+		maxBlocks = 3 + sw.Intn(6)
+	}
 
 	chain := []genBlock{{parent: -1, height: 0, post: NewState()}}
 	tip := 0
@@ -358,6 +371,11 @@ func Generate(p *Profile, seed uint64) *Scenario {
 		// a block
 		dels := genDels(g, st, delBias)
 		adds := genAdds(g, st, addScale, p.MaxAdds, p.LargePermille)
+		if wide && blocksMade == 0 {
+			// a wide forest from the start: whole-tree and delete-all blocks, proofs and
+			// queries then carry hundreds of targets
+			dels, adds = nil, 300+g.Intn(400)
+		}
 		if justReorged && lastAdds >= 0 && g.Pct(50) {
 			// twin block: right after a branch switch, a block with the same number of
 			// deletions and additions as the last block of the abandoned branch, but
